@@ -5,6 +5,9 @@ bad=0
 for d in refactors/*/; do
   id=$(basename "$d")
   out=$(tools/run_refactor.sh "$d/patch.diff" 2>&1 | grep -v "^WARNING")
-  if [ -n "$out" ]; then echo "## $id"; echo "$out"; bad=1; else echo "$id silent"; fi
+  exp=$(python3 -c "import json,sys; print(json.load(open(sys.argv[1])).get('expected','silent'))" "$d/meta.json" 2>/dev/null)
+  if [ -z "$out" ]; then echo "$id silent";
+  elif [ "$exp" = "inconclusive" ] && ! echo "$out" | grep -q "exit=1"; then echo "$id no verdict (as recorded)";
+  else echo "## $id"; echo "$out"; bad=1; fi
 done
 exit $bad
